@@ -32,14 +32,19 @@ package server
 //@   names id
 //@   ensures (err == nil) == (result != nil)
 
+// a session value is either the nil interface or holds a real session (never a typed nil): kept by every handler method
+//@ spec fn wfH(h *defaultHandler) bool = h.session == nil || payload(h.session) != 0
 //@ iface session.Encrypt
 //@   names ctx, data
+//@   requires [C19:session-behind-the-interface-exists] payload(this) != 0
 //@   ensures err == nil ==> result != nil && result.Key != nil && result.Key.ParentKeyMeta != nil
 
 //@ iface session.Decrypt
 //@   names ctx, d
+//@   requires [C19:session-behind-the-interface-exists] payload(this) != 0
 
 //@ iface session.Close
+//@   requires [C19:session-behind-the-interface-exists] payload(this) != 0
 
 // ---- request handlers: usable in every state they can be left in; always answer ----
 
@@ -72,28 +77,31 @@ package server
 //@   facet C19
 //@   safety C19
 //@   opt no-frame
-//@   requires h != nil && (r != nil ==> wfReq(r))
+//@   ensures [C19:handler-never-holds-a-typed-nil-session] wfH(h)
+//@   requires wfH(h) && h != nil && (r != nil ==> wfReq(r))
 //@   ensures [C19:always-answers] result != nil
 
 //@ func (*defaultHandler).Encrypt
 //@   facet C19
 //@   safety C19
 //@   opt no-frame
-//@   requires h != nil && (r != nil ==> wfReq(r))
+//@   ensures [C19:handler-never-holds-a-typed-nil-session] wfH(h)
+//@   requires wfH(h) && h != nil && (r != nil ==> wfReq(r))
 //@   ensures [C19:always-answers] result != nil
 
 //@ func (*defaultHandler).GetSession
 //@   facet C19
 //@   safety C19
 //@   opt no-frame
-//@   requires h != nil && h.sessionFactory != nil && (r != nil ==> wfReq(r))
+//@   ensures [C19:handler-never-holds-a-typed-nil-session] wfH(h)
+//@   requires wfH(h) && h != nil && h.sessionFactory != nil && (r != nil ==> wfReq(r))
 //@   ensures [C19:always-answers] result != nil
 
 //@ func (*defaultHandler).Close
 //@   facet C19
 //@   safety C19
 //@   opt no-frame
-//@   requires h != nil
+//@   requires h != nil && wfH(h)
 
 //@ func fromProtobufDRR
 //@   facet C19, C18
